@@ -32,6 +32,8 @@ def main(argv=None):
   ap.add_argument("--n", type=int, default=10)
   ap.add_argument("--deadline", type=float, default=600.0)
   ap.add_argument("--out", required=True)
+  ap.add_argument("--upto", type=int, default=None,
+                  help="replay of a history: run this shard's generated cases 0..upto in one process and stop")
   ap.add_argument("--cases", default=None,
                   help="JSON file with a list of {key,status,case}: witness/replay mode")
   a = ap.parse_args(argv)
@@ -62,9 +64,11 @@ def main(argv=None):
     if hasattr(mod, "run_shard"):
       mod.run_shard(ctx)
     else:
-      for case in mod.gen_cases(ctx):
+      for k, case in enumerate(mod.gen_cases(ctx)):
         drive(ctx, mod, case)
-        if ctx.expired():
+        if a.upto is not None and k >= a.upto:
+          break
+        if ctx.expired() and a.upto is None:
           break
   res = ctx.result(meta)
   res["witness"] = witness
